@@ -148,6 +148,7 @@ type exchange struct {
 	started   bool
 	done      bool
 	dialErr   string
+	retried   bool // the client repeated the request on a new connection (see sClient.run)
 }
 
 // ---------------------------------------------------------------------------
@@ -623,6 +624,11 @@ func (c *sClient) run(ex *exchange) {
 		env.x.Logf("client %d: stale keep-alive connection, retrying ex=%d on a new one", c.id, ex.id)
 		c.dropConn()
 		ex.got = nil
+		// the retry is a new request as far as Helios is concerned: time bounds apply per attempt
+		env.mu.Lock()
+		ex.startedAt = env.x.Now()
+		ex.retried = true
+		env.mu.Unlock()
 		c.runOnce(ex)
 	}
 }
